@@ -177,38 +177,72 @@ func runC05(c *Ctx) {
 		if !isEP {
 			continue
 		}
-		sb := u.at.Block()
-		var head *ssa.BasicBlock
-		for d := sb; d != nil && head == nil; d = d.Idom() {
-			for _, p := range d.Preds {
-				if d.Dominates(p) && ReachableFrom(sb)[p] {
-					head = d
+		// the signing point in a function: the store of the entry's Signature, or a call of a helper that returns nil
+		// only after having stored it
+		sigStoreIn := func(fn *ssa.Function) *ssa.Store {
+			var out *ssa.Store
+			instrs(fn, func(in ssa.Instruction) {
+				if st, ok := in.(*ssa.Store); ok {
+					if a := c.E(st.Addr); a.Op == "field" && a.Name == "Signature" && fieldOwner(a) == "Provider" {
+						out = st
+					}
+				}
+			})
+			return out
+		}
+		loopHead := func(b *ssa.BasicBlock) *ssa.BasicBlock {
+			for d := b; d != nil; d = d.Idom() {
+				for _, p := range d.Preds {
+					if d.Dominates(p) && ReachableFrom(b)[p] {
+						return d
+					}
+				}
+			}
+			return nil
+		}
+		type point struct {
+			in ssa.Instruction
+			fn string
+		}
+		var pts []point
+		fn0 := u.at.Parent()
+		if st := sigStoreIn(fn0); st != nil {
+			if loopHead(st.Block()) != nil {
+				pts = append(pts, point{st, c.short(topFunc(fn0).String())})
+			} else if sites, known := c.staticCallSites(fn0); known {
+				// the per-entry work is a helper called from the loop: it must store the signature before every
+				// nil-error return, and the loop must pass the call on every way round
+				okHelper := true
+				for _, b := range fn0.Blocks {
+					if ret, ok := b.Instrs[len(b.Instrs)-1].(*ssa.Return); ok && len(ret.Results) > 0 && c.RetX(ret, len(ret.Results)-1).Op == "nil" {
+						if !(st.Block() == b || st.Block().Dominates(b)) {
+							okHelper = false
+						}
+					}
+				}
+				for _, site := range sites {
+					if okHelper {
+						pts = append(pts, point{site, c.short(topFunc(site.Parent()).String())})
+					} else {
+						c.Bad("C05.S2-every-entry-signed", c.short(fn0.String())+" › helper stores the signature before succeeding", st.Pos(), "the per-entry signing helper can return nil without having stored the entry's new signature")
+					}
 				}
 			}
 		}
-		if head == nil {
-			continue
-		}
-		// the store of the element's Signature in this loop
-		var sigStore *ssa.Store
-		instrs(u.at.Parent(), func(in ssa.Instruction) {
-			if st, ok := in.(*ssa.Store); ok && head.Dominates(st.Block()) {
-				if a := c.E(st.Addr); a.Op == "field" && a.Name == "Signature" && fieldOwner(a) == "Provider" {
-					sigStore = st
-				}
+		for _, pt := range pts {
+			head := loopHead(pt.in.Block())
+			if head == nil {
+				continue
 			}
-		})
-		okAll := sigStore != nil
-		where := ""
-		if sigStore != nil {
+			okAll, where := true, ""
 			for _, p := range head.Preds {
-				if head.Dominates(p) && !sigStore.Block().Dominates(p) {
+				if head.Dominates(p) && !(pt.in.Block() == p || pt.in.Block().Dominates(p)) {
 					okAll = false
 					where = c.pos(posOf(p.Instrs[len(p.Instrs)-1]))
 				}
 			}
+			c.Check(okAll, "C05.S2-every-entry-signed", pt.fn+" › each iteration stores the entry's new signature", pt.in.Pos(), "every way round the loop passes the store of the entry's signature", "an iteration can end ("+where+") without the entry being signed afresh: its old signature (over the previous link, entries, context ID, addresses…) stays, and the advertisement the library just signed does not verify")
 		}
-		c.Check(okAll, "C05.S2-every-entry-signed", u.fn+" › each iteration stores the entry's new signature", u.at.Pos(), "every way round the loop passes the store of the entry's signature", "an iteration can end ("+where+") without the entry being signed afresh: its old signature (over the previous link, entries, context ID, addresses…) stays, and the advertisement the library just signed does not verify")
 	}
 	c.Floor("C05.S2-every-entry-signed", 1)
 
